@@ -269,6 +269,66 @@ theorem pyDictContains_iff {κ ν} [BEq κ] [LawfulBEq κ] (d : Dict κ ν) (k :
       simp only [List.lookup, h', List.map_cons, List.mem_cons, h, false_or]
       exact ih
 
+/-! ### dict updates and look-ups -/
+
+theorem pyDictSet_lookup {κ ν} [BEq κ] [LawfulBEq κ] (d : Dict κ ν) (k x : κ) (v : ν) :
+    (pyDictSet d k v).lookup x = if x == k then some v else d.lookup x := by
+  induction d with
+  | nil => simp [pyDictSet, List.lookup]; split <;> simp_all
+  | cons e d ih =>
+    rcases e with ⟨k', v'⟩
+    by_cases hk : k' == k
+    · have hkk : k' = k := by simpa using hk
+      subst hkk
+      simp only [pyDictSet, hk, if_true, List.lookup]
+      by_cases hx : x == k' <;> simp [hx]
+    · simp only [pyDictSet, hk, List.lookup]
+      by_cases hx : x == k'
+      · have hxe : x = k' := by simpa using hx
+        subst hxe
+        have : (x == k) = false := by simpa using hk
+        simp [this]
+      · simp [List.lookup, hx, ih]
+
+/-- `d[k].add(e)`: `KeyError` exactly when `k` is missing, else only the look-up of `k` changes. -/
+theorem pyDictModify_spec {κ ν} [BEq κ] [LawfulBEq κ] (d : Dict κ ν) (k : κ) (f : ν → ν) :
+    (d.lookup k = none → pyDictModify d k f = .error .KeyError) ∧
+    (∀ v, d.lookup k = some v → ∃ d', pyDictModify d k f = .ok d' ∧
+      ∀ x, d'.lookup x = if x == k then some (f v) else d.lookup x) := by
+  induction d with
+  | nil => exact ⟨fun _ => rfl, fun v h => by simp [List.lookup] at h⟩
+  | cons e d ih =>
+    rcases e with ⟨k', v'⟩
+    by_cases hk : k' == k
+    · have hkk : k' = k := by simpa using hk
+      subst hkk
+      refine ⟨fun h => by simp [List.lookup] at h, fun v h => ?_⟩
+      have hv : v' = v := by simpa [List.lookup] using h
+      subst hv
+      refine ⟨(k', f v') :: d, by simp [pyDictModify], fun x => ?_⟩
+      by_cases hx : x == k' <;> simp [List.lookup, hx]
+    · have hk2 : (k == k') = false := by
+        cases h : (k == k') with
+        | false => rfl
+        | true => exact absurd (by have := (beq_iff_eq.1 h); simp [this]) hk
+      constructor
+      · intro h
+        have h' : d.lookup k = none := by simpa [List.lookup, hk2] using h
+        simp [pyDictModify, hk, ih.1 h']
+      · intro v h
+        have h' : d.lookup k = some v := by simpa [List.lookup, hk2] using h
+        obtain ⟨d', hd', hl⟩ := ih.2 v h'
+        refine ⟨(k', v') :: d', by simp [pyDictModify, hk, hd'], fun x => ?_⟩
+        by_cases hx : x == k'
+        · have hxe : x = k' := by simpa using hx
+          subst hxe
+          have : (x == k) = false := by simpa using hk
+          simp [List.lookup, this]
+        · simp only [List.lookup, hx, hl x]
+
+theorem pyDictGetD_lookup {κ ν} [BEq κ] (d : Dict κ ν) (k : κ) (dflt : ν) :
+    pyDictGetD d k dflt = (d.lookup k).getD dflt := rfl
+
 /-- `none` of a model that uses `Option` for a failed index = `IndexError`. -/
 def optErr {α} : Option α → Except PyErr α
   | some a => .ok a
